@@ -1412,7 +1412,8 @@ func (fc *FnCtx) oblige(st *State, goal, name, kind string, pos token.Pos, desc 
 	}
 	// light mode: only assertions, effect preconditions and the loop invariants the contract
 	// itself supplies (they are assumed at the loop head, so they must be proved) are obligations
-	if fc.light && (kind != "pre-of" && kind != "assert" && kind != "inv-entry" && kind != "inv-keep" || strings.HasSuffix(name, "receiver-non-nil")) {
+	// (postconditions of a light contract are assumed by its callers, so they are proved too)
+	if fc.light && (kind != "pre-of" && kind != "assert" && kind != "inv-entry" && kind != "inv-keep" && kind != "post" || strings.HasSuffix(name, "receiver-non-nil")) {
 		return
 	}
 	ob := &Obligation{Name: name, Kind: kind, Fn: fc.fnKey(), Pos: fc.posStr(pos), Desc: desc, Guard: st.guard, Goal: goal, Expect: "unsat", Clause: fc.curClause}
